@@ -25,6 +25,8 @@ func runC02(c *Ctx) {
 	R.Rule("C02.R4", "bare elements: in the StartTag and SelfClosingTag arms a tag is written only if an attribute survived or allowNoAttrs(token.Data); allowNoAttrs returns true only across a lookup in the bare-element set or a MatchString of a registered bare-element pattern on its argument")
 	R.Rule("C02.R5", "argument provenance: sanitizeAttrs is called with (token.Data, token.Attr, rules) where rules is the value found in elsAndAttrs[token.Data] or returned by matchRegex(token.Data), and its result is stored back into token.Attr")
 	R.Rule("C02.R7", "each incoming attribute is kept at most once: no path through one iteration of the filter loop appends twice")
+	R.Rule("C02.R12", "patterns as registered: outside package initialisers every store into a *regexp.Regexp field of a builder or rule stores a parameter, nil or a copy of such a field — never the result of a call (a pattern merged, re-compiled or simplified by the library accepts other values than the one the caller wrote)")
+	patternsAsRegistered(c, "C02.R12")
 	R.Rule("C02.R11", "bare permission only on request: outside init() every update of the bare-element set / pattern list is under the true edge of the builder's own boolean flag; the flag is only ever stored a constant; the functions storing true (AllowNoAttrs) are not called from within the library")
 	barePermissionOnRequest(c, "C02.R11")
 	R.Rule("C02.R10", "a policy's set of elements allowed without attributes is its own (= C17.R4, cited): the map installed in that field is freshly made by the storing function — a default table shared between policies would let AllowNoAttrs() on one policy allow bare elements in all of them")
